@@ -30,3 +30,8 @@ FUNCTIONS = FUNCTIONS + [M + 'match_contains']
 FUNCTIONS = FUNCTIONS + [q for q in dict.fromkeys(KIDS + DESC) if q not in FUNCTIONS]
 
 VALIDATION = [validate_bs4]
+
+FUNCTIONS = FUNCTIONS + [q for q in [q for q in PARSE_SMALL if q.endswith("parse_pseudo_contains")] if q not in FUNCTIONS]
+STRUCTURAL = (globals().get('STRUCTURAL') or []) + [dispatch_structural]
+TRUSTED = list(TRUSTED) + [A_TOK]
+ASSUMPTIONS = TRUSTED
